@@ -29,9 +29,9 @@ MANIFEST = {
         "design_ref": "DESIGN.md section 5 C02, section 4.1 Relational",
     },
     "level_note": "Schema t(id, g, v) only; collation is byte order (binary); numbers are fixed point in tenths (exactly representable "
-                  "decimals), the value column is DECIMAL(10,1), DOUBLE or VARCHAR by configuration; rules mod / hash / range with "
+                  "decimals), the value column is DECIMAL(10,1), DOUBLE, VARCHAR or BIGINT by configuration (BIGINT values of extreme magnitude are handled by rank, so no SUM on them); rules mod / hash / range with "
                   "1-2 slices and 2-4 tables (date and mycat rules: placement is C08/C09's subject and is not repeated here); no "
-                  "joins, no subqueries, no HAVING, no aliases and no positional ORDER BY, WHERE of at most two comparisons; the "
+                  "joins, no subqueries, no HAVING, no aliases and no positional ORDER BY, WHERE of at most two leaves (comparison, IS [NOT] NULL, [NOT] IN of two values, [NOT] BETWEEN) joined by AND / OR; the final result is handed back to mysql.ResultPool after it is read, as the client connection does; the "
                   "backend is an environment model (per-shard SQL parsed by the repository's parser and evaluated by a Go "
                   "transliteration of Answer that is compared with TLC's Answer on every case); where MySQL leaves the result open "
                   "(row order without ORDER BY, ties, LIMIT without a total order) every admissible result is accepted; a statement "
@@ -79,8 +79,9 @@ def run(ctx):
     ]
     if ctx.replay:
         case = rel.load_replay(ctx)
-        p = ctx.write_ndjson("replay.ndjson", [case])
-        rel.replay(ctx, "C02", p, 1)
+        # twice: a deviation that needs state left behind by an earlier statement (pooled result objects) shows on the second run
+        p = ctx.write_ndjson("replay.ndjson", [case, case])
+        rel.replay(ctx, "C02", p, 2)
         return
 
     thorough = ctx.thorough
